@@ -145,7 +145,11 @@ def hook_call(call):
         bad(call, "_on_trait_change arguments")
     h = hexp(call.args[0])
     if len(call.args) == 1:
-        bad(call, "anytrait hook in a _register_<kind> method")
+        kw = dict((k.arg, U(k.value)) for k in call.keywords)
+        if kw != {"remove": "remove", "dispatch": "self.dispatch", "priority": "self.priority",
+                  "target": "self._get_target()"}:
+            bad(call, "anytrait hook keywords")
+        return "(.hookAny %s)" % h
     n = U(call.args[1])
     if n == "name":
         items = False
@@ -209,8 +213,28 @@ def reg_stmt(st, consts):
     bad(st, "statement")
 
 
+def _hook_items(t):
+    """None unless t is a plain hook statement; else whether it is on `name + "_items"`."""
+    if not t.startswith("(.hook "):
+        return None
+    return t[:-1].split()[-2] == "true"
+
+
 def reg_block(stmts, consts):
-    return seq([reg_stmt(s, consts) for s in stmts])
+    """Adjacent unconditional `_on_trait_change` calls on DIFFERENT traits (`name` and `name + "_items"`)
+    are independent: each touches the notifier list of its own trait only, and the model keeps one
+    notifier list per (object, trait).  They are emitted `name` first, so that swapping the two calls in
+    the source gives the same term.  Calls on the same trait keep their source order (it is the
+    notifier order)."""
+    parts = [reg_stmt(s, consts) for s in stmts]
+    changed = True
+    while changed:
+        changed = False
+        for i in range(len(parts) - 1):
+            if _hook_items(parts[i]) is True and _hook_items(parts[i + 1]) is False:
+                parts[i], parts[i + 1] = parts[i + 1], parts[i]
+                changed = True
+    return seq(parts)
 
 
 # ---------------------------------------------------------------------------- handle_*
@@ -272,6 +296,12 @@ DST_SRC = {
 }
 
 
+# normalised text (sha256 prefix of "\n".join(ast.unparse(stmt))) of code that is outside the fragment and
+# not interpreted: a change there must be looked at by a human and re-pinned
+PINNED = {"register:wildcard-branch": "30d52e44264f5653", "_new_trait_added": "5eb3b32af8cea630",
+          "_get_target": "d963802a67284943"}
+
+
 # ---------------------------------------------------------------------------- register / unregister
 
 def translate_register(fn, consts):
@@ -291,6 +321,9 @@ def translate_register(fn, consts):
         "if optional:\n    name = name[:-1]",
         "try:\n    trait = new.base_trait(name)\nexcept DelegationError:\n    trait = new.trait(name)",
     ]
+    import hashlib
+    if hashlib.sha256("\n".join(U(x) for x in w.body).encode()).hexdigest()[:16] != PINNED["register:wildcard-branch"]:
+        bad(w, "register: the wildcard / metadata / anytrait branch (pinned text) changed")
     if single[:3] != want_single or len(w.orelse) != 4:
         bad(w, "register: single-trait branch")
     t = w.orelse[3]
@@ -338,6 +371,314 @@ def translate_unregister(fn, consts):
               "if active is not None:\n    for name, type in active:\n        getattr(self, type)(old, name, True)"]:
         bad(tr, "unregister: body")
     return guard, ["pop", "ifpopped", "call:True"]
+
+
+# ---------------------------------------------------------------------------- ListenerParser -> ParL
+
+CH = {".": ".dot", ":": ".colon", "+": ".plus", "-": ".minus", "?": ".quest", "*": ".star", "[": ".lbr", "]": ".rbr",
+      ",": ".comma"}
+CV = {"c": ".c", "cn": ".cn", "next_char": ".nextChar"}
+SV = {"name": ".name", "metadata": ".metadata"}
+BV = {"cycle": ".cycle", "is_closing_bracket": ".isClosing", "item_complete": ".itemComplete"}
+
+
+def pexp(node, consts):
+    if isinstance(node, ast.BoolOp):
+        op = ".and" if isinstance(node.op, ast.And) else ".or"
+        parts = [pexp(v, consts) for v in node.values]
+        out = parts[-1]
+        for q in reversed(parts[:-1]):
+            out = "(%s %s %s)" % (op, q, out)
+        return out
+    if isinstance(node, ast.UnaryOp) and isinstance(node.op, ast.Not):
+        return "(.not %s)" % pexp(node.operand, consts)
+    if isinstance(node, ast.Name) and node.id in BV:
+        return "(.bvar %s)" % BV[node.id]
+    if U(node) == "result.is_anytrait":
+        return ".isAny"
+    if isinstance(node, ast.Compare) and len(node.ops) == 1:
+        l, op, r = node.left, node.ops[0], node.comparators[0]
+        pos = isinstance(op, (ast.Eq, ast.In))
+        if not isinstance(op, (ast.Eq, ast.NotEq, ast.In)):
+            bad(node, "parser comparison")
+
+        def wrap(e):
+            return e if pos else "(.not %s)" % e
+        if isinstance(l, ast.Name) and l.id in CV:
+            if isinstance(op, ast.In):
+                if isinstance(r, ast.Constant) and isinstance(r.value, str) and r.value and all(ch in CH for ch in r.value):
+                    return "(.cIn %s [%s])" % (CV[l.id], ", ".join(CH[ch] for ch in r.value))
+                bad(node, "`in` operand")
+            if isinstance(r, ast.Constant) and isinstance(r.value, str) and r.value in CH:
+                return wrap("(.cIs %s %s)" % (CV[l.id], CH[r.value]))
+            if U(r) == "terminator":
+                return wrap("(.cIsTerm %s)" % CV[l.id])
+        if U(l) == "terminator" and not isinstance(op, ast.In):
+            if isinstance(r, ast.Constant) and r.value in CH:
+                return wrap("(.termIs %s)" % CH[r.value])
+            if U(r) == "EOS":
+                return wrap("(.termIs .eos)")
+        if isinstance(l, ast.Name) and l.id in SV and isinstance(r, ast.Constant) and r.value == "" \
+                and not isinstance(op, ast.In):
+            return wrap("(.sEmpty %s)" % SV[l.id])
+        if isinstance(l, ast.Call) and U(l.func) == "len" and len(l.args) == 1 and isinstance(l.args[0], ast.Name) \
+                and l.args[0].id in SV and isinstance(r, ast.Constant) and r.value == 0 and not isinstance(op, ast.In):
+            return wrap("(.sEmpty %s)" % SV[l.args[0].id])
+    bad(node, "parser condition not understood")
+
+
+ITEM_KW = {"name": "name", "handler": "self.handler", "wrapped_handler_ref": "self.wrapped_handler_ref",
+           "dispatch": "self.dispatch", "priority": "self.priority"}
+
+CYCLE_BLOCK = ["last = result", "while last.next is not None:\n    last = last.next",
+               "lg = ListenerGroup(items=[next, result])", "last.set_next(lg)", "result = lg"]
+
+
+def pass_args(call, consts, extra=()):
+    """(deferred, handler_type / type) arguments of a parse_item / parse_group / ListenerItem call as
+    Lean `Option`s: none = the caller's own value is passed on."""
+    kw = dict((k.arg, k.value) for k in call.keywords)
+    out = []
+    for key, own in (("deferred", "deferred"), ("handler_type" if "handler_type" in kw else "type", "handler_type")):
+        if key not in kw:
+            bad(call, "missing argument " + key)
+        v = kw[key]
+        if U(v) == own:
+            out.append("none")
+        elif isinstance(v, ast.Constant) and isinstance(v.value, bool):
+            out.append("(some %s)" % lb(v.value))
+        elif isinstance(v, ast.Name) and v.id in consts:
+            out.append("(some %d)" % consts[v.id])
+        else:
+            bad(call, "argument " + key)
+    return out
+
+
+def p_stmt(st, consts):
+    if isinstance(st, ast.If):
+        return "(.ite %s %s %s)" % (pexp(st.test, consts), p_block(st.body, consts), p_block(st.orelse, consts))
+    s = U(st)
+    if isinstance(st, ast.Assign) and len(st.targets) == 1 and isinstance(st.targets[0], ast.Name):
+        t, v = st.targets[0].id, U(st.value)
+        if t in CV and v == "self.skip_ws":
+            return "(.readWs %s)" % CV[t]
+        if t in CV and v == "self.next":
+            return "(.readNext %s)" % CV[t]
+        if t in SV and v == "self.name":
+            return "(.readName %s)" % SV[t]
+        if t in CV and v in CV:
+            return "(.copyC %s %s)" % (CV[t], CV[v])
+        if t in BV and isinstance(st.value, ast.Compare) and U(st.value.left) == "self.skip_ws" \
+                and len(st.value.ops) == 1 and isinstance(st.value.ops[0], ast.Eq) \
+                and isinstance(st.value.comparators[0], ast.Constant) and st.value.comparators[0].value in CH:
+            return "(.setBWsIs %s %s)" % (BV[t], CH[st.value.comparators[0].value])
+        if t in BV:
+            return "(.setB %s %s)" % (BV[t], pexp(st.value, consts))
+        if t == "result" and isinstance(st.value, ast.Call) and U(st.value.func) == "self.parse_group":
+            c = st.value
+            kw = dict((k.arg, k.value) for k in c.keywords)
+            if c.args or sorted(kw) != ["deferred", "handler_type", "terminator"] \
+                    or not isinstance(kw["terminator"], ast.Constant) or kw["terminator"].value not in CH:
+                bad(st, "parse_group call")
+            d, ty = pass_args(c, consts)
+            return "(.callGroup %s %s %s)" % (CH[kw["terminator"].value], d, ty)
+        if t == "result" and isinstance(st.value, ast.Call) and U(st.value.func) == "ListenerItem":
+            c = st.value
+            kw = dict((k.arg, U(k.value)) for k in c.keywords)
+            if c.args or sorted(kw) != sorted(list(ITEM_KW) + ["deferred", "type"]) \
+                    or any(kw[k] != v for k, v in ITEM_KW.items()) or kw["deferred"] != "deferred" \
+                    or kw["type"] != "handler_type":
+                bad(st, "ListenerItem(...) in parse_item")
+            return ".mkItem"
+        if t == "next" and isinstance(st.value, ast.Call) and U(st.value.func) == "self.parse_item":
+            c = st.value
+            kw = dict((k.arg, U(k.value)) for k in c.keywords)
+            if c.args or sorted(kw) != ["deferred", "handler_type", "terminator"] or kw["terminator"] != "terminator":
+                bad(st, "parse_item call")
+            d, ty = pass_args(c, consts)
+            return "(.callItem %s %s)" % (d, ty)
+        bad(st, "parser assignment")
+    fixed = {
+        "result.name += '*'": ".appendStar",
+        "result.name += '?'": ".appendOpt",
+        "result.metadata_name = metadata = self.name": "(.seq (.readName .metadata) (.setMetaName .metadata))",
+        "self.backspace": ".backspace",
+        "result.is_list_handler = True": ".setListHandler",
+        "result.set_next(next)": ".setNextFromNext",
+        "result.set_next(result)": ".selfCycle",
+        "return result": ".ret",
+    }
+    if s in fixed:
+        return fixed[s]
+    if isinstance(st, ast.Assign) and U(st.targets[0]) == "result.metadata_defined" and len(st.targets) == 1:
+        return "(.setMetaDefined %s)" % pexp(st.value, consts)
+    if isinstance(st, ast.Assign) and U(st.targets[0]) == "result.is_anytrait" and len(st.targets) == 1:
+        return "(.setIsAny %s)" % pexp(st.value, consts)
+    if isinstance(st, ast.Expr) and isinstance(st.value, ast.Call):
+        f = U(st.value.func)
+        if f == "self.error":
+            return ".error"
+        if f == "result.set_notify" and len(st.value.args) == 1 and not st.value.keywords:
+            return "(.setNotify %s)" % pexp(st.value.args[0], consts)
+    bad(st, "parser statement")
+
+
+def p_block(stmts, consts):
+    # the block that splices a group into the chain for `*` (recursive names; outside the fragment) is pinned
+    if [U(x) for x in stmts] == CYCLE_BLOCK:
+        return ".cycleSplice"
+    return seq([p_stmt(s, consts) for s in stmts], ".skip")
+
+
+HELPERS = {
+    "next": "index = self.index\nself.index += 1\nif index >= self.len_text:\n    return EOS\nreturn self.text[index]",
+    "backspace": "self.index = max(0, self.index - 1)",
+    "skip_ws": "while True:\n    c = self.next\n    if c not in whitespace:\n        return c",
+    "name": "match = name_pat.match(self.text, self.index - 1)\nif match is None:\n    return ''\n"
+            "self.index = match.start(2)\nreturn match.group(1)",
+}
+
+GROUP_LOOP = ("items = []\nwhile True:\n    items.append(self.parse_item(ARGS))\n    c = self.skip_ws\n"
+              "    if c == terminator:\n        break\n    if c != ',':\n        if terminator == EOS:\n"
+              "            self.error(\"Expected ',' or end of string\")\n        else:\n"
+              "            self.error(\"Expected ',' or '%s'\" % terminator)\n")
+
+
+def translate_parser(mod, consts):
+    cls = [n for n in mod.body if isinstance(n, ast.ClassDef) and n.name == "ListenerParser"]
+    if len(cls) != 1:
+        bad("ListenerParser", "class missing")
+    fns = {}
+    for st in cls[0].body:
+        if isinstance(st, ast.FunctionDef):
+            if st.name in fns:
+                bad(st.name, "defined twice")
+            fns[st.name] = st
+    for n, want in HELPERS.items():
+        f = fns.get(n)
+        if f is None or [U(d) for d in f.decorator_list] != ["property"] \
+                or "\n".join(U(x) for x in body_of(f)) != want:
+            bad(n, "tokenizer helper changed")
+    pats = {}
+    for st in mod.body:
+        if isinstance(st, ast.Assign) and len(st.targets) == 1 and U(st.targets[0]) in ("simple_pat", "name_pat"):
+            pats[U(st.targets[0])] = U(st.value)
+    if pats != {"simple_pat": "re.compile('^([a-zA-Z_]\\\\w*)(\\\\.|:)([a-zA-Z_]\\\\w*)$')",
+                "name_pat": "re.compile('([a-zA-Z_]\\\\w*)\\\\s*(.*)')"}:
+        bad(str(pats), "regular expressions changed")
+    # parse_item
+    pi = fns["parse_item"]
+    if [a.arg for a in pi.args.args] != ["self"] or [a.arg for a in pi.args.kwonlyargs] != ["terminator", "deferred", "handler_type"]:
+        bad("parse_item", "signature")
+    item_body = p_block(body_of(pi), consts)
+    # parse_group
+    pg = fns["parse_group"]
+    if [a.arg for a in pg.args.kwonlyargs] != ["terminator", "deferred", "handler_type"]:
+        bad("parse_group", "signature")
+    b = body_of(pg)
+    try:
+        call = b[1].body[0].value.args[0]
+    except Exception:
+        bad(pg, "parse_group shape")
+    if not (isinstance(call, ast.Call) and U(call.func) == "self.parse_item"):
+        bad(pg, "parse_group: parse_item call")
+    kw = dict((k.arg, U(k.value)) for k in call.keywords)
+    if call.args or kw.get("terminator") != "terminator" or sorted(kw) != ["deferred", "handler_type", "terminator"]:
+        bad(call, "parse_group: parse_item arguments")
+    g_args = pass_args(call, consts)
+    text = "\n".join(U(x) for x in b[:2]) + "\n"
+    if text != GROUP_LOOP.replace("ARGS", ", ".join("%s=%s" % (k.arg, U(k.value)) for k in call.keywords)):
+        bad(pg, "parse_group loop changed")
+    tail = [U(x) for x in b[2:]]
+    if tail == ["if len(items) == 1:\n    return items[0]", "return ListenerGroup(items=items)"]:
+        unwrap = True
+    elif tail == ["return ListenerGroup(items=items)"]:
+        unwrap = False
+    else:
+        bad(pg, "parse_group tail")
+    # parse
+    pa = fns["parse"]
+    if [a.arg for a in pa.args.args] != ["self", "deferred", "handler_type"]:
+        bad("parse", "signature")
+    b = body_of(pa)
+    if len(b) != 4 or U(b[0]) != "if self.text.strip().endswith(','):\n    self.error(\"Error parsing name. Trailing ',' is not allowed\")" \
+            or U(b[1]) != "match = simple_pat.match(self.text)":
+        bad(pa, "parse: head")
+    sm = b[2]
+    if not (isinstance(sm, ast.If) and U(sm.test) == "match is not None" and not sm.orelse and len(sm.body) == 1
+            and isinstance(sm.body[0], ast.Return) and isinstance(sm.body[0].value, ast.Call)
+            and U(sm.body[0].value.func) == "ListenerItem"):
+        bad(sm, "parse: simple_pat shortcut")
+    outer = sm.body[0].value
+    okw = dict((k.arg, k.value) for k in outer.keywords)
+    want_o = dict(ITEM_KW, name="match.group(1)")
+    if outer.args or sorted(okw) != sorted(list(want_o) + ["deferred", "type", "notify", "next"]) \
+            or any(U(okw[k]) != v for k, v in want_o.items()):
+        bad(outer, "parse: outer ListenerItem")
+    n = U(okw["notify"])
+    if n == "match.group(2) == '.'":
+        notify_dot = True
+    elif n in ("match.group(2) == ':'", "match.group(2) != '.'"):
+        notify_dot = False
+    else:
+        bad(okw["notify"], "parse: notify")
+    inner = okw["next"]
+    if not (isinstance(inner, ast.Call) and U(inner.func) == "ListenerItem"):
+        bad(inner, "parse: inner ListenerItem")
+    ikw = dict((k.arg, k.value) for k in inner.keywords)
+    want_i = dict(ITEM_KW, name="match.group(3)")
+    if inner.args or sorted(ikw) != sorted(list(want_i) + ["deferred", "type"]) \
+            or any(U(ikw[k]) != v for k, v in want_i.items()):
+        bad(inner, "parse: inner ListenerItem arguments")
+    s_outer = pass_args(outer, consts)
+    s_inner = pass_args(inner, consts)
+    last = b[3]
+    if not (isinstance(last, ast.Return) and isinstance(last.value, ast.Call) and U(last.value.func) == "self.parse_group"):
+        bad(last, "parse: tail")
+    lkw = dict((k.arg, U(k.value)) for k in last.value.keywords)
+    if last.value.args or sorted(lkw) != ["deferred", "handler_type", "terminator"] or lkw["terminator"] != "EOS":
+        bad(last, "parse: parse_group arguments")
+    p_args = pass_args(last.value, consts)
+    # ListenerGroup
+    grp = [n_ for n_ in mod.body if isinstance(n_, ast.ClassDef) and n_.name == "ListenerGroup"]
+    if len(grp) != 1:
+        bad("ListenerGroup", "class missing")
+    gf = dict((st.name, st) for st in grp[0].body if isinstance(st, ast.FunctionDef))
+
+    def gbody(n_):
+        return [U(x) for x in body_of(gf[n_])]
+    reg = gbody("register")
+    unreg = gbody("unregister")
+    if reg == ["for item in self.items:\n    item.register(new)", "return INVALID_DESTINATION"]:
+        reg_fw = True
+    else:
+        bad(gf["register"], "ListenerGroup.register")
+    if unreg == ["for item in self.items:\n    item.unregister(old)"]:
+        unreg_fw = True
+    else:
+        bad(gf["unregister"], "ListenerGroup.unregister")
+    if gbody("set_next") != ["for item in self.items:\n    item.set_next(next)", "self.next = next if self.items else None"]:
+        bad(gf["set_next"], "ListenerGroup.set_next")
+    if gbody("set_notify") != ["for item in self.items:\n    item.set_notify(notify)"]:
+        bad(gf["set_notify"], "ListenerGroup.set_notify")
+    if gbody("__init__") != ["self.items = items", "self.next = None"]:
+        bad(gf["__init__"], "ListenerGroup.__init__")
+    lines = ["def parse_item : PStmt :=\n  %s\n" % item_body,
+             "def pprog : PProg where",
+             "  itemBody := parse_item",
+             "  anyListener := %d" % consts["ANY_LISTENER"],
+             "  groupItemArgs := (%s, %s)" % tuple(g_args),
+             "  groupUnwrapsSingle := %s" % lb(unwrap),
+             "  simpleOuter := (%s, %s)" % tuple(s_outer),
+             "  simpleInner := (%s, %s)" % tuple(s_inner),
+             "  simpleNotifyIsDot := %s" % lb(notify_dot),
+             "  parseGroupArgs := (%s, %s)" % tuple(p_args),
+             "  groupRegisterForwards := %s" % lb(reg_fw),
+             "  groupUnregisterForwards := %s" % lb(unreg_fw),
+             "  groupSetNextForwards := true",
+             "  groupSetNotifyForwards := true",
+             ""]
+    return lines
 
 
 # ---------------------------------------------------------------------------- driver
@@ -396,7 +737,7 @@ def emit(traits_dir):
                 bad(n, "signature")
     reg_methods = []
     for n in sorted(fns):
-        if n.startswith("_register_") and n != "_register_anytrait":
+        if n.startswith("_register_"):
             reg_methods.append((n, reg_block(body_of(fns[n]), consts)))
     skip, rorder = translate_register(fns["register"], consts)
     guard, uorder = translate_unregister(fns["unregister"], consts)
@@ -413,9 +754,14 @@ def emit(traits_dir):
             "wh = self.wrapped_handler_ref()\nif wh is not None:\n    wh(object, name, new.removed, new.added)":
         bad("handle_list_items_special", "pinned text changed")
     handlers.append(("listItemsSpecial", ".wrapped"))
+    import hashlib
+    for n in ("_new_trait_added", "_get_target"):
+        if hashlib.sha256("\n".join(U(x) for x in body_of(fns[n])).encode()).hexdigest()[:16] != PINNED[n]:
+            bad(n, "pinned text changed")
 
     DV = {"trait_list_object": ".list", "trait_dict_object": ".dict", "trait_set_object": ".set"}
-    RN = {"_register_simple": ".simple", "_register_list": ".list", "_register_dict": ".dict", "_register_set": ".set"}
+    RN = {"_register_simple": ".simple", "_register_list": ".list", "_register_dict": ".dict", "_register_set": ".set",
+          "_register_anytrait": ".anytrait"}
 
     def rn(x):
         if x not in RN:
@@ -430,8 +776,10 @@ def emit(traits_dir):
         bad("type_map", "duplicate key")
     out = ["/- GENERATED by harness/translate/legacysrc.py from traits/traits_listener.py of the working tree - do not edit. -/",
            "import TraitsVerif.Model.LisL",
+           "import TraitsVerif.Model.ParL",
            "namespace TraitsVerif.Generated.LegacyProg",
            "open TraitsVerif.Model.LisL",
+           "open TraitsVerif.Model.ParL (PStmt PProg)",
            ""]
     for n, t in reg_methods:
         out.append("def %s : Stmt :=\n  %s\n" % (n.lstrip("_"), t))
@@ -451,6 +799,7 @@ def emit(traits_dir):
     out.append("  unregisterOrder := [%s]" % ", ".join(lstr(x) for x in uorder))
     out.append("  handlers := [%s]" % ", ".join("(.%s, h_%s)" % (n, n) for n, _ in handlers))
     out.append("")
+    out += translate_parser(mod, consts)
     out.append("end TraitsVerif.Generated.LegacyProg")
     return "\n".join(out) + "\n"
 
